@@ -170,6 +170,9 @@ def cut_loop(I, s, st, lab, spec, cond, pre_body, post_body, at_head, auto_inv, 
     invs = list(spec.get("invariant", []))
     tags = tuple(spec.get("tags", ()))
     entry_snapshot = st.copy()
+    for n, v in entry_snapshot.locals.items():
+        if not n.startswith("$") and not n.startswith("entry_"):
+            st.locals["entry_%s_%s" % (lab.replace(".", "_"), n)] = v.val if isinstance(v, MaybeUnbound) else v
     # ---- initiation
     if at_head:
         at_head(st)
@@ -236,9 +239,6 @@ def cut_loop(I, s, st, lab, spec, cond, pre_body, post_body, at_head, auto_inv, 
     if at_head:
         at_head(hv)
     # ghost: values at loop entry, readable in invariants as at_loop_entry names  ($entry_<name>)
-    for n, v in entry_snapshot.locals.items():
-        if not n.startswith("$"):
-            hv.locals["entry_" + n] = v
     # ---- assume invariants
     if auto_inv:
         a = auto_inv(hv)
@@ -321,8 +321,7 @@ def cut_loop(I, s, st, lab, spec, cond, pre_body, post_body, at_head, auto_inv, 
 
 
 def _strip_ghosts(st):
-    for n in [n for n in st.locals if n.startswith("entry_")]:
-        del st.locals[n]
+    return
 
 
 def _eval_term(I, text, st):
